@@ -180,7 +180,10 @@ def check(cx):
             rep.analysed_fns.add(inst)
             it = a.it
             cx_it[0] = it
-            loops = [lp for lp in it.loops if lp.fn == inst]
+            # the merge loop may live in the impl itself or in a helper it delegates to
+            loops = [lp for lp in it.loops if sum(1 for r, p, fv, iv in lp.carried if isinstance(fv, tuple) and fv and fv[0] == 'sym') >= 2]
+            if len(loops) != 1:
+                loops = [lp for lp in it.loops if lp.fn == inst]
             if len(loops) != 1:
                 rep.ob('step', inst, False, 'expected one merge loop, found %d' % len(loops), fn=inst, file=file, line=line,
                        key='C13:unrecognised-loop:' + inst)
